@@ -7,6 +7,8 @@ from vlib import *
 from props.gdscommon import *
 
 HARNESS_BINS = ["c01"]
+# lemma files whose Qed-closed obligations belong to this property (Properties/C02.v holds the theorems)
+PROOF_FILES = ["Gds/GdsBytes_proofs.v", "Gds/GdsWrite_proofs.v", "Gds/GdsWFits_proofs.v", "Gds/GdsWTables_proofs.v", "Gds/GdsRtUnfold_proofs.v", "Gds/GdsRtRead_proofs.v", "Gds/GdsRoundtrip_proofs.v", "Gds/GdsRtSpec_proofs.v", "Gds/GdsRtStrip_proofs.v"]
 
 def gen_cases(chk):
     quick = chk.tier == "quick"
